@@ -201,6 +201,10 @@ GROUPS = {"class_shape": g_class_shape, "methods": g_methods, "class_header_orde
           "canary": c13.g_canary}
 
 CLASS_PROGRAMS = [
+    "seen = []\ndef traced(fn):\n    def w(*a, **k):\n        seen.append(fn.__name__)\n        return fn(*a, **k)\n    return w\n"
+    "class Base:\n    @traced\n    def __init_subclass__(cls, **kw):\n        cls.tag = sorted(kw)\nclass Sub(Base, flag=1):\n    pass\n"
+    "class B2:\n    @classmethod\n    def __init_subclass__(cls):\n        cls.hooked = True\nclass S2(B2):\n    pass\n"
+    "r = (Sub.tag, seen, S2.hooked, type(vars(Base)['__init_subclass__']).__name__, type(vars(B2)['__init_subclass__']).__name__)\n",
     "class A:\n    x = 1\n    def m(self):\n        return self.x\nr = (A().m(), sorted(k for k in vars(A) if not k.startswith('__')))\n",
     "class P:\n    def m(self):\n        return 1\nclass A(P):\n    def m(self):\n        return super().m() + 1\n    @staticmethod\n    def s(v):\n        return v\n    @classmethod\n    def c(cls):\n        return cls.__name__\n    @property\n    def p(self):\n        return 7\nr = (A().m(), A.s(2), A.c(), A().p, [k.__name__ for k in A.__mro__])\n",
     "class M(type):\n    def __new__(m, n, b, d, **k):\n        c = super().__new__(m, n, b, d)\n        c.kw = k\n        return c\n    def __init__(c, n, b, d, **k):\n        pass\nclass B: pass\nclass A(B, metaclass=M, flag=1):\n    y = 2\nr = (type(A).__name__, A.kw, A.y, [k.__name__ for k in A.__mro__])\n",
